@@ -483,6 +483,12 @@ def search_conc(facts, tier, rng):
     """bounded exploration of the extracted-configuration machine for a racy schedule (search only)"""
     found = search_progs(facts, tier)
     if found: return found
+    # the ordering-parametrised machine is only meaningful when the translator recognised the protocol's shape and
+    # every ordering: otherwise its configuration would be made of defaults, and a schedule found for it says nothing
+    # about the code
+    P0 = facts.get('protocol') or {}
+    if not (P0.get('drop_shape') and P0.get('uniq_shape') and P0.get('dec_ord') and P0.get('acq_ord') and P0.get('uniq_ord')):
+        return None
     depth2, depth3 = (9, 7) if tier != 'thorough' else (10, 8)
     body = ('From Coq Require Import List. Import ListNotations.\nFrom TV Require Import Layout SrcFacts Conc Extracted.\n'
             'Eval vm_compute in (explore Extracted.conc_cfg 2 %d cinit [], explore Extracted.conc_cfg 3 %d cinit []).\n' % (depth2, depth3))
